@@ -2059,6 +2059,107 @@ fn run(v: &Value) -> Result<String, String> {
             rt.shutdown_background();
             out
         }
+        "aligned_client_frames" => {
+            // Bounded stand-in for C08's aligned-client clause: the frame the blocking and the async client put on the
+            // wire for call_typed_slice_aligned(path, data) carries the same query and body as
+            // Message::builder().query_str(path).body_aligned_typed_slice(data) -- i.e. the padding is computed for the
+            // payload's real offset 48 + |query| -- for path lengths 1..17 and several element types; and placed at a
+            // 16-aligned base the payload can be borrowed.
+            use std::io::Write as _;
+            fn check<T: beve::BeveTypedSlice + Clone + PartialEq + std::fmt::Debug + Send + Sync + 'static>(name: &str, data: Vec<T>) -> Result<usize, String> {
+                let listener = std::net::TcpListener::bind("127.0.0.1:0").map_err(|e| e.to_string())?;
+                let addr = listener.local_addr().unwrap();
+                let (tx, rx) = std::sync::mpsc::channel::<repe::Message>();
+                std::thread::spawn(move || {
+                    for conn in listener.incoming() {
+                        let Ok(stream) = conn else { break };
+                        let tx = tx.clone();
+                        std::thread::spawn(move || {
+                            let mut reader = std::io::BufReader::new(stream.try_clone().unwrap());
+                            let mut writer = std::io::BufWriter::new(stream);
+                            while let Ok(req) = repe::read_message(&mut reader) {
+                                let resp = repe::Message::builder().id(req.header.id).body_typed_slice::<u8>(&[]).build();
+                                let _ = tx.send(req);
+                                if repe::write_message(&mut writer, &resp).is_err() || writer.flush().is_err() { break; }
+                            }
+                        });
+                    }
+                });
+                let rt = tokio::runtime::Builder::new_current_thread().enable_all().build().unwrap();
+                let client = repe::Client::connect(addr).map_err(|e| e.to_string())?;
+                let aclient = rt.block_on(repe::AsyncClient::connect(addr)).map_err(|e| e.to_string())?;
+                let mut n = 0;
+                for plen in 1..=17usize {
+                    let path = format!("/{}", "p".repeat(plen - 1));
+                    let want = repe::Message::builder().query_str(&path).body_aligned_typed_slice(&data).build();
+                    for which in ["blocking", "async"] {
+                        let _: Vec<u8> = if which == "blocking" { client.call_typed_slice_aligned(&path, &data).map_err(|e| e.to_string())? } else { rt.block_on(aclient.call_typed_slice_aligned(&path, &data)).map_err(|e| e.to_string())? };
+                        let sent = rx.recv_timeout(std::time::Duration::from_secs(5)).map_err(|_| "peer saw no request".to_string())?;
+                        if sent.query != want.query || sent.body != want.body || sent.header.body_format != want.header.body_format {
+                            return Err(format!("{which} client, {name}, path of {plen} bytes: the aligned request body differs from the builder's aligned body for the same query ({} vs {} bytes): the padding was not computed for offset 48 + {plen}", sent.body.len(), want.body.len()));
+                        }
+                        // at a 16-aligned base the payload must be borrowable
+                        let wire = sent.to_vec();
+                        let mut backing = vec![0u8; wire.len() + 32];
+                        let off = (16 - (backing.as_ptr() as usize % 16)) % 16;
+                        backing[off..off + wire.len()].copy_from_slice(&wire);
+                        let view = repe::MessageView::from_slice_exact(&backing[off..off + wire.len()]).map_err(|e| e.to_string())?;
+                        match beve::read_aligned_typed_slice_ref::<T>(view.body) {
+                            Ok(b) if b == &data[..] => {}
+                            other => return Err(format!("{which} client, {name}, path of {plen} bytes: with the frame at an aligned address the payload could not be borrowed: {:?}", other.map(|b| b.len()))),
+                        }
+                        n += 1;
+                    }
+                }
+                Ok(n)
+            }
+            let mut total = 0;
+            total += check::<f64>("f64", vec![1.5, -2.25, f64::MAX])?;
+            total += check::<u32>("u32", vec![1, u32::MAX, 7, 9, 11])?;
+            total += check::<i16>("i16", vec![-1, 2, i16::MIN])?;
+            total += check::<u8>("u8", vec![1, 2, 3])?;
+            total += check::<f64>("f64-empty", vec![])?;
+            Ok(format!("{total} aligned client frames held"))
+        }
+        "peer_alias_remove_race" => {
+            // C18 scenario (one forced interleaving): alias(peer 1, key) whose key conversion is slow races
+            // remove(peer 1). Whatever alias() reports, afterwards nothing may point at the removed peer, also after the
+            // same id is registered again.
+            use std::sync::Arc;
+            use std::sync::mpsc::{channel, Receiver, Sender};
+            use std::time::Duration;
+            struct S;
+            impl repe::PeerSink for S { fn send_notify(&self, _m: &str, _b: repe::NotifyBody) -> Result<(), repe::PeerSendError> { Ok(()) } }
+            struct SlowKey { text: &'static str, started: Sender<()>, resume: Receiver<()> }
+            impl From<SlowKey> for String { fn from(k: SlowKey) -> String { let _ = k.started.send(()); let _ = k.resume.recv_timeout(Duration::from_secs(10)); k.text.to_string() } }
+            let peer = |id: u64| repe::PeerHandle::new(repe::PeerId(id), Arc::new(S));
+            let reg = repe::PeerRegistry::new();
+            reg.insert(peer(1));
+            reg.insert(peer(2));
+            if !reg.alias(repe::PeerId(2), "other") { return Err("alias on a present peer refused".into()); }
+            let (stx, srx) = channel();
+            let (rtx, rrx) = channel();
+            let r2 = reg.clone();
+            let h = std::thread::spawn(move || r2.alias(repe::PeerId(1), SlowKey { text: "session-1", started: stx, resume: rrx }));
+            // with the key converted before the lock is taken this arrives at once; if alias() converts under its lock the
+            // remove below simply waits for it -- either way the outcome must be one of the two sequential orders
+            let _ = srx.recv_timeout(Duration::from_secs(10));
+            let remover = { let r3 = reg.clone(); std::thread::spawn(move || r3.remove(repe::PeerId(1)).is_some()) };
+            std::thread::sleep(Duration::from_millis(100));
+            let _ = rtx.send(());
+            let attached = h.join().map_err(|_| "alias thread panicked")?;
+            let removed = remover.join().map_err(|_| "remove thread panicked")?;
+            if !removed { return Err("remove() of a present peer returned None".into()); }
+            if reg.get(repe::PeerId(1)).is_some() { return Err("peer 1 still present after remove".into()); }
+            let left = reg.aliases_for(repe::PeerId(1));
+            if !left.is_empty() || reg.key_for(repe::PeerId(1)).is_some() || reg.get_by("session-1").is_some() {
+                return Err(format!("alias() racing remove() of the same peer left a dangling alias: alias() returned {attached}, the removed peer still lists {left:?}, get_by(session-1) resolves: {}", reg.get_by("session-1").is_some()));
+            }
+            reg.insert(peer(1));
+            if reg.get_by("session-1").is_some() || !reg.aliases_for(repe::PeerId(1)).is_empty() { return Err("after re-registering the id, a stale key resolves to a peer it was never assigned to".into()); }
+            if reg.aliases_for(repe::PeerId(2)) != vec!["other".to_string()] || reg.get_by("other").map(|p| p.peer_id().0) != Some(2) { return Err("an unrelated peer's alias was disturbed".into()); }
+            Ok(format!("alias/remove race resolved as a sequential order (alias returned {attached})"))
+        }
         other => panic!("unknown replay entry `{other}`"),
     }
 }
